@@ -79,7 +79,9 @@ def gen_plan(rng: random.Random, tier: str) -> dict:
                           "key": rng.choice(["ChatFromSimulator", "*"])})
         if i_ == reconnect_at:
             # the simulator went away and the client re-opens the circuit (HippoClientRegion.disconnect / connect)
-            steps.append({"at": t, "op": "reconnect"})
+            # ("alive_on_ack": as HippoClientRegion.connect() does it - the circuit only counts as alive once the
+            #  UseCircuitCode has been acknowledged)
+            steps.append({"at": t, "op": "reconnect", "alive_on_ack": rng.random() < 0.5})
             t = round(t + 0.01, 4)
         if i_ == flood_at:
             steps.append({"at": t, "op": "flood", "n": rng.choice([900, 995, 999, 1000, 1001, 1040, 1500])})
@@ -453,9 +455,28 @@ def run_plan(plan: dict) -> RunResult:
             old_lives.append(dict(client_sends))
             client_sends.clear()
             last_first_pid[0] = -1
-            circuit.send_reliable(Message("UseCircuitCode", Block("CircuitCode", Code=session.circuit_code,
-                                                                 SessionID=session.id, ID=session.agent_id)))
-            circuit.is_alive = True
+            ucc = Message("UseCircuitCode", Block("CircuitCode", Code=session.circuit_code,
+                                                  SessionID=session.id, ID=session.agent_id))
+            fut = circuit.send_reliable(ucc)
+            rec = client_sends.get(ucc.packet_id)
+            if rec is not None:
+                rec["future"] = fut
+
+                def _done(f, rec=rec):
+                    if f.cancelled():
+                        return
+                    exc = f.exception()
+                    if exc is not None:
+                        rec["failed_at"] = loop.time()
+                        rec["failed_tx"] = rec["transmissions"]
+                        rec["failed_exc"] = type(exc).__name__
+                    else:
+                        circuit.is_alive = True
+                fut.add_done_callback(_done)
+            if st.get("alive_on_ack"):
+                res.probe("circuit_alive_only_once_acknowledged")
+            else:
+                circuit.is_alive = True
 
         ops = {"ssend": op_ssend, "sresend": op_sresend, "sack": op_sack, "csend": op_csend, "flood": op_flood,
                "reconnect": op_reconnect, "cwait": op_cwait}
